@@ -21,7 +21,6 @@ package termrenderers
 //@   modifies ghost sb_content(sb)
 //@ func underlineHeaderChar
 //@   pure
-//@   trusted
 //@ func maxi64
 //@   pure
 //@ func sumi64
